@@ -372,6 +372,12 @@ func ruleGFPolyArith(c *Ctx) {
 				idxs = append(idxs, idx)
 			}
 		}
+		var hdrs []*ssa.BasicBlock
+		for _, b := range fn.Blocks {
+			if _, _, init, ok := loopIndex(b); ok && init == 0 {
+				hdrs = append(hdrs, b)
+			}
+		}
 		if len(idxs) == 2 {
 			// outer first in block order
 			n.Bind[idxs[0]], n.Bind[idxs[1]] = "i", "j"
@@ -379,6 +385,18 @@ func ruleGFPolyArith(c *Ctx) {
 		eachInstr(fn, func(b *ssa.BasicBlock, ins ssa.Instruction) {
 			if m, ok := ins.(*ssa.MakeSlice); ok {
 				c.expectPoly(R, "utils.(*GFPoly).Multiply/len", m.Pos(), n, m.Len, "len(gp.Coefficients) + len(other.Coefficients) - 1")
+			}
+			if st, ok := ins.(*ssa.Store); ok && len(hdrs) == 2 {
+				if ia, ok := st.Addr.(*ssa.IndexAddr); ok {
+					if _, isMk := ia.X.(*ssa.MakeSlice); isMk {
+						// every pair (i, j) is visited: the accumulation is reached for all i < len(a), j < len(b)
+						// and the loops are left only through their headers
+						c.expectCond(R, "utils.(*GFPoly).Multiply/all-pairs", st.Pos(), n.ReachCond(fn, hdrs[0], b), "i < len(gp.Coefficients) && j < len(other.Coefficients)")
+						for k, h := range hdrs {
+							c.Check(R, fmt.Sprintf("utils.(*GFPoly).Multiply/no-early-exit#%d", k+1), h.Instrs[0].Pos(), loopExitsOnlyAtHeader(h), "the loop is left only when its counter reaches the length", "a break/return leaves the loop body")
+						}
+					}
+				}
 			}
 			if st, ok := ins.(*ssa.Store); ok {
 				if ia, ok := st.Addr.(*ssa.IndexAddr); ok {
@@ -545,4 +563,41 @@ func ruleAztecHighLevel(c *Ctx) {
 		}
 	}
 	_ = token.ADD
+}
+
+// loopExitsOnlyAtHeader: no edge leaves the natural loop of hdr except from hdr itself.
+func loopExitsOnlyAtHeader(hdr *ssa.BasicBlock) bool {
+	in := map[*ssa.BasicBlock]bool{hdr: true}
+	// natural loop: blocks that reach a back edge source without passing hdr
+	var work []*ssa.BasicBlock
+	for _, p := range hdr.Preds {
+		if hdr.Dominates(p) && !in[p] {
+			in[p] = true
+			work = append(work, p)
+		}
+	}
+	for len(work) > 0 {
+		b := work[len(work)-1]
+		work = work[:len(work)-1]
+		for _, p := range b.Preds {
+			if !in[p] {
+				in[p] = true
+				work = append(work, p)
+			}
+		}
+	}
+	for b := range in {
+		if b == hdr {
+			continue
+		}
+		for _, s := range b.Succs {
+			if !in[s] {
+				return false
+			}
+		}
+		if _, isRet := b.Instrs[len(b.Instrs)-1].(*ssa.Return); isRet {
+			return false
+		}
+	}
+	return true
 }
